@@ -871,7 +871,7 @@ def run_e2e(ctx, rng, defect_clear, nops, small=False, gcflags=None):
                     if l[3] == "1" and not gcflags[l[2]][0]:
                         decl = dict(c06_e2e.FIXED_TYPES)[l[2]]
                         key = "regmem-emitted:" + decl
-                        if key not in seen:
+                        if key not in seen and sum(1 for x in seen if x.startswith("regmem-emitted:")) < 2:
                             seen.add(key)
                             ctx.log("e2e %s %s: the emitted descriptor of %s = %s carries TFlagRegularMemory, the reference compiler's does not" % (pname, opt, l[2], decl))
                             ctx.report(key, "llgo emits TFlagRegularMemory for a type that is not regular memory: " + decl,
